@@ -262,6 +262,36 @@ theorem createOffer_ext (st : St) : Ext st.trs (createOffer st).1.trs := by
     · exact offerState_ext st
     · rw [(register_same _ _).1]; exact offerState_ext st
 
+theorem narrow_keeps (ans : Bool) (d : Dir) (t : Tr) : Keeps t (t.narrow ans d) :=
+  ⟨Tr.narrow_kind ans d t, fun m h => by rw [Tr.narrow_mid]; exact h⟩
+
+theorem narrowLoop_ext : ∀ (secs : List Sec) (w : List (Tr × Bool)),
+    Ext (w.map (·.1)) ((narrowLoop secs w).map (·.1)) := by
+  intro secs
+  induction secs with
+  | nil => intro w; exact Ext.refl _
+  | cons s rest ih =>
+    intro w
+    simp only [narrowLoop]
+    split
+    · exact Ext.refl _
+    · split
+      · exact ih w
+      · split
+        · exact ih w
+        · split
+          · exact Ext.refl _
+          · rename_i w' hw'
+            exact (updFirst_ext (fun t _ => narrow_keeps true _ t) hw').trans (ih w')
+
+theorem answerState_ext (st : St) (r : Desc) : Ext st.trs (answerState st r).trs := by
+  unfold answerState
+  simp only
+  split
+  · exact Ext.refl _
+  · have := narrowLoop_ext r.secs (st.trs.map fun t => (t, false))
+    simpa [List.map_map, Function.comp_def] using this
+
 theorem createAnswer_ext (st : St) : Ext st.trs (createAnswer st).1.trs := by
   unfold createAnswer
   split
@@ -269,8 +299,8 @@ theorem createAnswer_ext (st : St) : Ext st.trs (createAnswer st).1.trs := by
   · split
     · exact Ext.refl _
     · split
-      · exact Ext.refl _
-      · rw [(register_same _ _).1]; exact Ext.refl _
+      · exact answerState_ext st _
+      · rw [(register_same _ _).1]; exact answerState_ext st _
 
 theorem setLocal_ext (st : St) (n : Nat) (d : Desc) : Ext st.trs (setLocal st n d).1.trs := by
   rcases setLocal_shape st n d with h | ⟨st1, trs, h1, h2⟩
@@ -291,27 +321,16 @@ theorem remoteTrs_ext (st : St) (d : Desc) : Ext st.trs (remoteTrs st d).1 := by
   · exact Ext.refl _
 
 theorem setRemote_ext (st : St) (d : Desc) : Ext st.trs (setRemote st d).1.trs := by
-  unfold setRemote
-  split
-  · exact Ext.refl _
-  · split
-    · exact Ext.refl _
-    · rename_i st1 h1
-      obtain ⟨t1, _⟩ := setDescRemote_same h1
-      obtain ⟨t2, _⟩ := engineUpdate_same d st1
-      have base : Ext st.trs (remoteTrs (engineUpdate st1 d) d).1 := by
-        have := remoteTrs_ext (engineUpdate st1 d) d
-        rw [t2, t1] at this; exact this
-      simp only
-      split
-      · exact base
-      · split
-        · exact base
-        · split
-          · exact base
-          · split
-            · exact base.trans (setCurrentDirections_ext _ _ _)
-            · exact base
+  rcases setRemote_shape st d with h | ⟨st1, h1, h2⟩
+  · rw [h]; exact Ext.refl _
+  · obtain ⟨t1, _⟩ := setDescRemote_same h1
+    obtain ⟨t2, _⟩ := engineUpdate_same d st1
+    have base : Ext st.trs (remoteTrs (engineUpdate st1 d) d).1 := by
+      have := remoteTrs_ext (engineUpdate st1 d) d
+      rw [t2, t1] at this; exact this
+    rcases h2 with h2 | ⟨_, h2⟩
+    · rw [h2]; exact base
+    · rw [h2]; exact base.trans (setCurrentDirections_ext _ _ _)
 
 theorem step_ext (w : World) (op : Op) (p : Peer) : Ext (w.get p).trs ((step w op).1.get p).trs := by
   have hset : ∀ (q : Peer) (s : St), Ext (w.get q).trs s.trs → Ext (w.get p).trs ((w.set q s).get p).trs := by
@@ -372,7 +391,7 @@ theorem generateMatched_prefix {st : St} {r : Desc} {inc : Bool} {role : Setup} 
   split at h
   · cases h
   · rename_i ms left app hml
-    have hids := matchLoop_ids _ _ _ _ _ _ _ hml
+    have hids := matchLoop_ids _ _ _ _ _ _ _ _ hml
     cases inc with
     | false =>
       simp only [Bool.false_eq_true, if_false] at h
